@@ -1,6 +1,6 @@
 (* Proofs for C04 / C05 (statements are restated in Properties/Properties_C04.v, Properties_C05.v). *)
 Require Import LV.Common.Bytes LV.Model.SmModel LV.Spec.SmSpec.
-From Coq Require Import Permutation.
+From Coq Require Import Permutation Sorting.Sorted.
 Require Import Lia ZifyBool.
 Ltac Zify.zify_post_hook ::= Z.div_mod_to_equations.
 Local Open Scope Z_scope.
@@ -278,4 +278,314 @@ Proof.
       clear - Tl. induction tl as [|a tl IHt]; [constructor|]. cbn in Tl. apply andb_true_iff in Tl as [T1 T2].
       constructor; [|apply IHt, T2]. destruct (q_owner a); cbn in T1; try discriminate.
     + rewrite E1 in I3. cbn in I3. cbn in Hn. lia.
+Qed.
+
+(* ------------------------------------------------------------------ symbolic execution helpers *)
+Ltac abs_send :=
+  match goal with
+  | |- context[send_raw_ ?st ?g ?o ?t ?r] =>
+      let q := fresh "q" in let r1 := fresh "r" in let n := fresh "n" in let tl := fresh "tl" in
+      let E := fresh "E" in let Eq := fresh "Eq" in let Tl := fresh "Tl" in let Hn := fresh "Hn" in let S := fresh "S" in
+      destruct (send_raw_spec st g o t r) as (q & r1 & n & tl & E & Eq & Tl & Hn & _ & S);
+      let st1 := fresh "st" in let o1 := fresh "o" in
+      destruct (send_raw_ st g o t r) as [st1 o1]; cbn [fst snd] in E, S; subst st1
+  end.
+Ltac abs_resend :=
+  match goal with
+  | |- context[resend ?l ?st] =>
+      let q := fresh "q" in let r1 := fresh "r" in let n := fresh "n" in
+      let E := fresh "E" in let S := fresh "S" in
+      destruct (resend_frame l st) as (q & r1 & n & E & S);
+      let st1 := fresh "st" in let o1 := fresh "o" in
+      destruct (resend l st) as [st1 o1]; cbn [fst snd] in E, S; subst st1
+  end.
+Ltac unf := unfold dispatch, fire, sm_handle, handle_sm, handle_bind, handle_features in *;
+  unfold sm_enable, do_bind, xmpp_disconnect, stream_end in *;
+  unfold send_lib, neg_success, sm_err, reset_sm_state, mark_in, disconnect, do_connect, cb, user_send in *.
+Ltac gsil := repeat match goal with H : forallb silent ?o = true |- context[gfold ?g ?o] => rewrite (gfold_silent g o H) end.
+Ltac brk :=
+  match goal with
+  | |- context[send_raw_ _ _ _ _ _] => abs_send
+  | |- context[resend _ _] => abs_resend
+  | |- context[let '(_, _) := cleanup ?l ?h in _] => destruct (cleanup l h) eqn:?
+  | |- context[if ?b then _ else _] => destruct b eqn:?
+  | |- context[match ?x with _ => _ end] =>
+      lazymatch x with
+      | context[match _ with _ => _ end] => fail
+      | context[if _ then _ else _] => fail
+      | _ => destruct x eqn:?
+      end
+  end.
+Ltac split_smel e :=
+  let a := fresh "a" in let ra := fresh "ra" in let id := fresh "id" in let pv := fresh "pv" in
+  let h := fresh "h" in let c := fresh "c" in
+  destruct e as [|a|ra id|pv h|c h|];
+  [ | destruct a | destruct ra; destruct id | destruct pv; destruct h | destruct c; destruct h | ].
+
+(* the two halves of _handle_stream_stanza *)
+Lemma inv1_fire bt st g it : inv1 (st, g) -> inv1 (fst (fire bt st it), gfold g (snd (fire bt st it))).
+Proof.
+  unfold inv1; cbn [fst snd]. intros (A & B & C).
+  unfold fire. destruct it as [| | |smo|e]; try (cbn; auto; fail).
+  - destruct (h_bind st); [|cbn; auto]. unf.
+    repeat (brk; cbn [fst snd] in * ); gn; gsil; cbn; auto.
+  - destruct (h_feat st); [|cbn; auto]. unf.
+    repeat (brk; cbn [fst snd] in * ); gn; gsil; cbn; auto.
+  - destruct (h_sm st); [|cbn; auto]. split_smel e; unf.
+    Time all: repeat (brk; cbn [fst snd] in * ).
+    all: gn; gsil; cbn; auto.
+Qed.
+
+Lemma inv1_post st g it :
+  inv1 (st, g) ->
+  let r := if sm_enabled st then sm_handle st it else (st, []) in
+  inv1 (fst r, gfold (gfold g (mark_in it)) (snd r)).
+Proof.
+  unfold inv1; cbn [fst snd]. intros (A & B & C). cbn zeta.
+  destruct (sm_enabled st) eqn:Es.
+  - symmetry in A.
+    destruct it as [| | |smo|e]; [| | | |split_smel e]; unf;
+      repeat (brk; cbn [fst snd] in * ); gn; gsil; cbn; rewrite ?A; cbn; rewrite ?Es;
+      repeat split; auto; try (rewrite B; apply w32_succ); try lia.
+  - symmetry in A. destruct it as [| | |smo|e]; [| | | |split_smel e]; cbn; rewrite ?A; cbn; auto.
+Qed.
+
+Lemma inv1_disconnect st g : inv1 (st, g) -> inv1 (fst (disconnect st), gfold g (snd (disconnect st))).
+Proof.
+  unfold inv1; cbn [fst snd]. intros (A & B & C). unf.
+  repeat (brk; cbn [fst snd] in * ); gn; cbn; auto.
+Qed.
+
+Lemma inv1_step bt s a : inv1 s -> inv1 (sys_step bt s a).
+Proof.
+  destruct s as [st g]. intros H. unfold sys_step, step. cbn [fst snd].
+  destruct a as [t|sched|it| | |].
+  - (* send *)
+    destruct H as (A & B & C). cbn [fst snd] in *. unfold inv1. unf.
+    repeat (brk; cbn [fst snd] in * ); gn; gsil; cbn; auto.
+  - (* write *)
+    unfold write_phase. destruct (connected st) eqn:Ec; [|exact H].
+    destruct (wloop_g1 (sq st) sched st g) as (_ & _ & _ & _ & _ & V & _ & _).
+    destruct (wloop_frame (sq st) sched st) as (q' & m & n & E & _).
+    destruct (wloop (sq st) sched st) as [[[st1 o] err] sl]. cbn [fst snd] in *.
+    assert (H1 : inv1 (st1, gfold g o)).
+    { destruct H as (A & B & C). cbn [fst snd] in *. unfold gv1 in V. inversion V as [[V1 V2 V3 V4]].
+      unfold inv1; cbn [fst snd]. rewrite E, V1, V2, V3, V4. cbn. auto. }
+    destruct err; [|exact H1].
+    pose proof (inv1_disconnect st1 (gfold g o) H1) as H2.
+    destruct (disconnect st1) as [st2 o2]. cbn [fst snd] in *. rewrite gfold_app. exact H2.
+  - (* inbound element *)
+    unfold dispatch. destruct (negb (connected st)); [exact H|].
+    pose proof (inv1_fire bt st g it H) as H1.
+    destruct (fire bt st it) as [st1 o1]. cbn [fst snd] in H1.
+    pose proof (inv1_post st1 (gfold g o1) it H1) as H2. cbn zeta in H2.
+    destruct (if sm_enabled st1 then sm_handle st1 it else (st1, [])) as [st2 o2]. cbn [fst snd] in *.
+    rewrite !gfold_app. exact H2.
+  - (* stream end *)
+    destruct (connected st) eqn:Ec; [|exact H]. unfold stream_end.
+    assert (H1 : inv1 (set_can_resume st false, g)) by exact H.
+    pose proof (inv1_disconnect _ _ H1) as H2.
+    destruct (disconnect (set_can_resume st false)) as [st2 o2]. cbn [fst snd] in *.
+    rewrite gfold_cons. exact H2.
+  - (* loss *)
+    pose proof (inv1_disconnect _ _ H) as H2. destruct (disconnect st) as [st2 o2]. exact H2.
+  - (* connect *)
+    destruct H as (A & B & C). cbn [fst snd] in *. unfold inv1. unf.
+    repeat (brk; cbn [fst snd] in * ); gn; cbn; auto.
+Qed.
+
+Lemma inv1_run bt l s : inv1 s -> inv1 (sys_run bt s l).
+Proof. revert s; induction l as [|a l IH]; intros s H; [exact H|]. cbn. apply IH, inv1_step, H. Qed.
+
+Lemma inv1_init : inv1 sys0.
+Proof. unfold inv1, sys0; cbn. repeat split; reflexivity. Qed.
+
+(* ------------------------------------------------------------------ C05 *)
+Lemma c05_h_exact bt l :
+  let s := sys_run bt sys0 l in
+  handled_nr (fst s) = w32 (g_in (snd s)) /\ sm_enabled (fst s) = g_active (snd s).
+Proof. cbn zeta. destruct (inv1_run bt l sys0 inv1_init) as (A & B & C). auto. Qed.
+
+Lemma c05_a_per_r bt l : g_a (snd (sys_run bt sys0 l)) = g_r (snd (sys_run bt sys0 l)).
+Proof. destruct (inv1_run bt l sys0 inv1_init) as (A & B & C). exact C. Qed.
+
+(* one <r/> on an established session: exactly one <a h=handled/> is queued, nothing else changes *)
+Lemma c05_r_step bt st :
+  connected st = true -> sm_enabled st = true -> h_sm st = false ->
+  let st' := fst (dispatch bt st (ISm SmR)) in
+  exists tail,
+    sq st' = sq st ++ mk_sqe (next_gid st) OSm (a_text (handled_nr st)) 0 false :: tail /\ tail = [] /\
+    handled_nr st' = handled_nr st /\ smq st' = smq st /\ sent_nr st' = sent_nr st /\ sm_enabled st' = true.
+Proof.
+  intros C E H. unfold dispatch, fire. rewrite C, H. cbn [negb fst snd]. rewrite E.
+  unfold sm_handle, send_lib. rewrite C. unfold send_raw_. cbn [eff_owner countable andb].
+  cbn. exists []. repeat split; auto.
+Qed.
+
+(* what a dispatched element does to the inbound counter *)
+Definition is_stanza (it : initem) : bool := match it with IStanza | IBindResult => true | _ => false end.
+
+Lemma c05_count_step bt st it :
+  connected st = true ->
+  let st' := fst (dispatch bt st it) in
+  (is_stanza it = true -> handled_nr st' = if sm_enabled st' then w32 (handled_nr st + 1) else handled_nr st) /\
+  (is_stanza it = false ->
+     handled_nr st' = handled_nr st \/
+     (h_sm st = true /\ handled_nr st' = 0 /\ exists e, it = ISm e /\ match e with SmEnabled _ _ | SmFailed _ _ => True | _ => False end)).
+Proof.
+  intros C. cbn zeta. unfold dispatch. rewrite C. cbn [negb].
+  destruct it as [| | |smo|e]; [| | | |split_smel e]; unf;
+    repeat (brk; cbn [fst snd] in * ); cbn in *;
+    repeat match goal with H : ?x = _ |- context[if ?x then _ else _] => rewrite H end;
+    (split; [intros X; try discriminate X|intros X; try discriminate X]); auto;
+    try (right; split; [reflexivity|split; [reflexivity|eexists; split; [reflexivity|exact I]]]).
+  all: congruence.
+Qed.
+
+(* the <resume/> request carries the inbound count of the suspended session *)
+Lemma c05_resume_h bt l smo pv :
+  let s := sys_run bt sys0 l in
+  let st := fst s in
+  connected st = true -> h_feat st = true -> previd st = Some pv ->
+  (sm_support st || smo) = true -> can_resume st = true -> sm_bound st = true ->
+  sq (fst (dispatch bt st (IFeatures smo))) =
+    sq st ++ [mk_sqe (next_gid st) OSm (resume_text pv (w32 (g_in (snd s)))) 0 false].
+Proof.
+  cbn zeta. destruct (c05_h_exact bt l) as [Hh _]. cbn zeta in Hh.
+  set (st := fst (sys_run bt sys0 l)) in *. intros C F P S R B.
+  unfold dispatch, fire. rewrite C, F. cbn [negb]. unfold handle_features.
+  assert (S' : sm_support (if smo then set_sm_support (set_h_feat st false) true else set_h_feat st false) = true).
+  { destruct smo; cbn; [reflexivity|]. rewrite orb_false_r in S. exact S. }
+  destruct smo; cbn [previd set_sm_support set_h_feat]; rewrite P; cbn in S' |- *; rewrite ?S', R, B; cbn;
+    unfold send_lib, send_raw_; cbn; rewrite C; cbn; rewrite <- Hh;
+    match goal with |- context[if ?b then _ else _] => destruct b end; reflexivity.
+Qed.
+
+(* ------------------------------------------------------------------ C04, single steps *)
+Lemma cleanup_split l h : let '(k, r) := cleanup l h in l = r ++ k.
+Proof.
+  induction l as [|e l IH]; [reflexivity|]. cbn. destruct (s_h e <? h).
+  - destruct (cleanup l h) as [k r]. cbn. rewrite IH. reflexivity.
+  - reflexivity.
+Qed.
+
+Definition hs_sorted (l : list sme) : Prop := StronglySorted Z.lt (map s_h l).
+
+Lemma cleanup_sorted l h : hs_sorted l ->
+  cleanup l h = (filter (fun e => h <=? s_h e) l, filter (fun e => s_h e <? h) l).
+Proof.
+  unfold hs_sorted. induction l as [|e l IH]; intros S; [reflexivity|].
+  cbn in S. inversion S as [|? ? S1 S2]; subst. cbn [cleanup filter].
+  destruct (s_h e <? h) eqn:E.
+  - rewrite (IH S1). replace (h <=? s_h e) with false by lia. reflexivity.
+  - replace (h <=? s_h e) with true by lia.
+    assert (A : forall x, In x l -> s_h x <? h = false /\ h <=? s_h x = true).
+    { intros x I. rewrite Forall_forall in S2. specialize (S2 (s_h x) (in_map s_h l x I)). lia. }
+    f_equal.
+    + f_equal. clear - A. induction l as [|a l IHl]; [reflexivity|]. cbn.
+      destruct (A a (or_introl eq_refl)) as [_ A2]. rewrite A2. f_equal. apply IHl. intros x I. apply A. right. exact I.
+    + clear - A. induction l as [|a l IHl]; [reflexivity|]. cbn.
+      destruct (A a (or_introl eq_refl)) as [A1 _]. rewrite A1. apply IHl. intros x I. apply A. right. exact I.
+Qed.
+
+(* <a h>: exactly the elements numbered below h are released, nothing newer, nothing else changes *)
+Lemma c04_ack_exact bt st h :
+  connected st = true -> sm_enabled st = true -> h_sm st = false -> hs_sorted (smq st) ->
+  let r := dispatch bt st (ISm (SmA (AVal h))) in
+  smq (fst r) = filter (fun e => h <=? s_h e) (smq st) /\
+  In (OG (GRelease (map s_gid (filter (fun e => s_h e <? h) (smq st))))) (snd r) /\
+  sq (fst r) = sq st /\ sent_nr (fst r) = sent_nr st /\ r_sent (fst r) = false.
+Proof.
+  intros C E H S. cbn zeta. unfold dispatch, fire. rewrite C, H. cbn [negb fst snd]. rewrite E.
+  unfold sm_handle. rewrite (cleanup_sorted _ h S). cbn. repeat split; auto.
+Qed.
+
+Lemma list_eqb_refl l : list_eqb l l = true.
+Proof. induction l as [|a l IH]; [reflexivity|]. cbn. rewrite Z.eqb_refl. exact IH. Qed.
+
+(* <resumed h>: numbering continues at h, exactly the elements numbered h and above are queued again, in order,
+   behind what is already in the send queue (nothing can be, see sm_resends_first) and the SM queue is empty *)
+Lemma c04_resumed_step bt st pv h :
+  connected st = true -> h_sm st = true -> previd st = Some pv -> hs_sorted (smq st) ->
+  Forall (fun e => s_owner e = OUser) (smq st) ->
+  let r := dispatch bt st (ISm (SmResumed (Some pv) (Some h))) in
+  smq (fst r) = [] /\
+  sqc (fst r) = sqc st ++ map s_gid (filter (fun e => h <=? s_h e) (smq st)) /\
+  In (OG (GRelease (map s_gid (filter (fun e => s_h e <? h) (smq st))))) (snd r) /\
+  sent_nr (fst r) = w32 h /\ sm_enabled (fst r) = true /\ neg_done (fst r) = true.
+Proof.
+  intros C H P S F. cbn zeta. unfold dispatch, fire. rewrite C, H. cbn [negb].
+  unfold handle_sm. cbn [previd set_h_sm]. rewrite P, list_eqb_refl.
+  cbn [smq set_sent_nr set_sm_bound set_bound set_previd set_sm_id set_sm_enabled set_h_sm].
+  rewrite (cleanup_sorted _ h S).
+  set (kept := filter (fun e => h <=? s_h e) (smq st)).
+  set (rel := filter (fun e => s_h e <? h) (smq st)).
+  match goal with |- context[resend kept ?s0] => set (st0 := s0) end.
+  assert (C0 : connected st0 = true) by exact C.
+  assert (Fk : Forall (fun e => s_owner e = OUser) kept).
+  { unfold kept. rewrite Forall_forall in *. intros x I. apply filter_In in I as [I _]. apply F, I. }
+  destruct (resend_g1 kept st0 C0 Fk) as (R1 & _ & _).
+  destruct (resend_frame kept st0) as (q & r1 & n & E & Sil).
+  destruct (resend kept st0) as [st2 o2]. cbn [fst snd] in *.
+  unfold neg_success.
+  assert (E2 : sm_enabled st2 = true) by (rewrite E; reflexivity).
+  assert (E3 : smq st2 = []) by (rewrite E; cbn; destruct kept; reflexivity).
+  assert (E4 : sent_nr st2 = w32 h) by (rewrite E; reflexivity).
+  destruct (neg_done st2) eqn:En; cbn [fst snd]; cbn [sm_enabled set_neg_done]; rewrite E2; unfold sm_handle; cbn [fst snd];
+    (split; [exact E3|split; [unfold sqc, sq_countable in *; subst st0; cbn [sq set_neg_done set_sent_nr set_sm_bound set_bound set_previd set_sm_id set_sm_enabled set_h_sm set_smq] in *; rewrite R1; reflexivity|split; [|split; [exact E4|split; [exact E2|auto]]]]]).
+  - right. left. reflexivity.
+  - right. left. reflexivity.
+Qed.
+
+(* <failed/> with item-not-found after a resumption request: only what the server reports as handled (h, if it
+   gives one) is released; everything else stays in the SM queue for the new session *)
+Lemma c04_failed_step bt st h :
+  connected st = true -> h_sm st = true -> resume st = true -> hs_sorted (smq st) ->
+  let hv := match h with Some v => v | None => 0 end in
+  let r := dispatch bt st (ISm (SmFailed FItemNotFound h)) in
+  smq (fst r) = filter (fun e => hv <=? s_h e) (smq st) /\
+  In (OG (GRelease (map s_gid (filter (fun e => s_h e <? hv) (smq st))))) (snd r) /\
+  sm_enabled (fst r) = false.
+Proof.
+  intros C H R S. cbn zeta. unfold dispatch, fire. rewrite C, H. cbn [negb].
+  unfold handle_sm. cbn [resume set_sm_enabled set_h_sm smq]. rewrite R.
+  rewrite (cleanup_sorted _ _ S).
+  unf. repeat (brk; cbn [fst snd] in * ); cbn; repeat split; auto.
+Qed.
+
+(* any other <failed/>: the SM queue is kept as it is *)
+Lemma c04_failed_keeps bt st c h :
+  connected st = true -> h_sm st = true -> c <> FItemNotFound ->
+  smq (fst (dispatch bt st (ISm (SmFailed c h)))) = smq st.
+Proof.
+  intros C H N. unfold dispatch, fire. rewrite C, H. cbn [negb].
+  destruct c; try contradiction; unf; repeat (brk; cbn [fst snd] in * ); cbn; reflexivity.
+Qed.
+
+(* <enabled/>: the whole SM queue is queued again, in order, and the inbound count restarts *)
+Lemma c04_enabled_step bt st ra id :
+  connected st = true -> h_sm st = true -> (ra = true -> id <> None) ->
+  Forall (fun e => s_owner e = OUser) (smq st) ->
+  let r := dispatch bt st (ISm (SmEnabled ra id)) in
+  smq (fst r) = [] /\ sqc (fst r) = sqc st ++ smqg st /\ handled_nr (fst r) = 0 /\ neg_done (fst r) = true.
+Proof.
+  intros C H Hid F. cbn zeta. unfold dispatch, fire. rewrite C, H. cbn [negb].
+  unfold handle_sm.
+  set (st0 := set_handled_nr (set_h_sm st false) 0).
+  assert (exists st1, (if ra then match id with Some i => Some (set_sm_id (set_can_resume st0 true) (Some i)) | None => None end
+                       else Some st0) = Some st1 /\ connected st1 = true /\ smq st1 = smq st /\ sqc st1 = sqc st /\
+                      handled_nr st1 = 0) as (st1 & Ea & C1 & Q1 & S1 & H1).
+  { destruct ra; [destruct id as [i|]; [|exfalso; apply Hid; reflexivity]|]; eexists; split; try reflexivity; repeat split; auto. }
+  rewrite Ea.
+  assert (F1 : Forall (fun e => s_owner e = OUser) (smq st1)) by (rewrite Q1; exact F).
+  destruct (resend_g1 (smq st1) st1 C1 F1) as (R1 & _ & _).
+  destruct (resend_frame (smq st1) st1) as (q & r1 & n & E & Sil).
+  destruct (resend (smq st1) st1) as [st2 o2]. cbn [fst snd] in *.
+  assert (E3 : smq st2 = []) by (rewrite E; cbn; destruct (smq st1); reflexivity).
+  assert (E5 : handled_nr st2 = 0) by (rewrite E; cbn; exact H1).
+  unfold neg_success.
+  destruct (neg_done st2) eqn:En; cbn [fst snd];
+    match goal with |- context[if ?b then _ else _] => destruct b end; unfold sm_handle; cbn [fst snd];
+    (split; [exact E3|split; [unfold sqc, sq_countable in *; cbn [sq set_neg_done] in *; rewrite R1, S1; unfold smqg; rewrite Q1; reflexivity
+                             |split; [exact E5|auto]]]).
 Qed.
